@@ -42,6 +42,8 @@ def cases(ctx):
         if rng.random() < 0.2:
             ws = ws + [rng.choice(['z', s['eps'] or 'z', 'az'])]
         sets = [sorted(rng.sample(s['Q'], rng.randint(0, len(s['Q'])))) for _ in range(2)]
+        if i % 12 == 5:
+            s['frozen'] = rng.choice(['delta', 'all'])       # immutable containers in the fields of the NFA
         if not thorough or ctx.mine(i):
             yield {'kind': 'nfa', 'N': s, 'words': ws, 'sets': sets}
     # larger automata: shortcut-free epsilon chains through 6-13 numbered states, and one chain longer than 1000 states
@@ -141,7 +143,7 @@ def judge(ctx, c, answers):
             ctx.violation('correspondence:eps_closure', {'case': sub, 'impl': r1, 'model': la}, no_input=True)
         ctx.count('closure:size>1' if len(exp['ok']) > len(S) else 'closure:trivial')
     # history: the same object, edited in place (still a valid NFA), must be judged by its CURRENT content
-    if c['N']['Q'] and c['words'] and not c.get('no_edit'):
+    if c['N']['Q'] and c['words'] and not c.get('no_edit') and not c['N'].get('frozen'):
         q = c['N']['Q'][0]
         spec2 = dict(c['N'], F=[y for y in c['N']['F'] if y != q] if q in c['N']['F'] else c['N']['F'] + [q])
         N2 = enc.build_nfa(c['N'])
